@@ -114,7 +114,27 @@ fn location_stream(rep: &mut Report, runner: &mut Runner, tier: &str, seed: u64)
             text.push('\n');
             line_no += 1;
         }
+        // scoped targets, with layout (blanks, a newline, a comment) between the dot and the name: the location is that of
+        // the NAME; positions are found by searching the finished text for the (unique) name
+        let mut scoped: Vec<String> = Vec::new();
+        if r.chance(1, 2) {
+            for _ in 0..r.range(1, 2) {
+                k += 1;
+                let name = format!("zs{}q", k);
+                let gap = *r.pick(&["", " ", "   ", "\t", "\n      ", " ; note\n  ", "\u{a0}"]);
+                let lead = if r.chance(1, 2) { format!("let zp{} = \"{}\" ", k, r.pick(&texts)) } else { String::new() };
+                text.push_str(&format!("  {}node @m.{}{}\n", lead, gap, name));
+                scoped.push(name);
+            }
+            text = text.replacen("(module) @_m {", "(module) @m {", 1);
+        }
         text.push_str("}\n");
+        for name in &scoped {
+            let at = text.find(name.as_str()).unwrap();
+            let line = text[..at].matches('\n').count() + 1;
+            let col = text[..at].rsplit('\n').next().unwrap().chars().count() + 1;
+            nodes.push((name.clone(), line, col));
+        }
         let file = match load(&text) {
             Ok(Ok(f)) => f,
             other => {
@@ -148,7 +168,8 @@ fn location_stream(rep: &mut Report, runner: &mut Runner, tier: &str, seed: u64)
                 let var = attr(&nl[0], DBG.1);
                 let loc = attr(&nl[0], DBG.0);
                 var_of_node.push(var.clone());
-                let found = nodes.iter().find(|(name, _, _)| var.as_deref() == Some(&format!("(str \"{}\")", name)));
+                let found = nodes.iter().find(|(name, _, _)| var.as_deref() == Some(&format!("(str \"{}\")", name))
+                    || var.as_deref().map(|v| v.ends_with(&format!(".{}\")", name))).unwrap_or(false));
                 match found {
                     None => rep.fail("direct", &format!("C15 {}: a node's variable attribute names no `node` statement of the program", mode), true,
                         json!({"tsg": text, "source": source.src, "variable": var, "graph": g.pretty()})),
